@@ -10,7 +10,7 @@ META = {
                  "KeyRef<K>) has user-provided copy operations which do not copy the borrowing member from the source but "
                  "rebuild it from the object's own storage; R19.2 the user-provided assignment of CdnsBlock assigns every data "
                  "member and CdnsBlockRead re-seats its cursors on its own containers; R19.3 copy/move constructors and move "
-                 "assignment delegate to those assignments (no member-wise default bypasses them). R19.1 accepts copy-and-swap: a copy built with the copy constructor and every data member swapped with it. R19.2 follows a copy-aside temporary (constructor initialisers, member stores) through a pairwise swap helper; a validity-guarded memo (cdnsverif/memos.py: a bool member, false initially, only tested and assigned constants, and the members read only where it is true) may be reset instead of copied; the base part may be spelled out member by member. R19.3 also accepts a special member that performs exactly the statements of the copy assignment.",
+                 "assignment delegate to those assignments (no member-wise default bypasses them). R19.4 all stores into a reverse index keyed by a borrowing type (incremental maintenance and the rebuild after a copy) treat equal keys the same way - overwrite or keep-first. R19.1 accepts copy-and-swap: a copy built with the copy constructor and every data member swapped with it. R19.2 follows a copy-aside temporary (constructor initialisers, member stores) through a pairwise swap helper; a validity-guarded memo (cdnsverif/memos.py: a bool member, false initially, only tested and assigned constants, and the members read only where it is true) may be reset instead of copied; the base part may be spelled out member by member. R19.3 also accepts a special member that performs exactly the statements of the copy assignment.",
     "explanation": "Ownership/borrowing rule over record facts (special members implicit/defaulted/user, field types) and "
                    "the bodies of the copy operations. Every obligation is enumerated and must be discharged; with the "
                    "trusted base (std containers copy by value) the rule implies independence of source and copy.",
@@ -468,3 +468,55 @@ def check(run):
             run.ob("R19.3", "%s:%s-delegates" % (short(q), "ctor(%s)" % fn["sig"][0].split("::")[-1] if is_cc else "move-assign"), ok, fn, fn["line"],
                    why_ if ok else "neither delegates to operator= nor initialises its cursor members on its own containers")
     run.floor("R19.3", 12, "special members of the block classes")
+    check_index_policy(run, "R19.4")
+
+
+OVERWRITE, KEEP_FIRST = "the last of equal keys wins", "the first of equal keys wins"
+
+
+def check_index_policy(run, rule):
+    """R19.4: the copy operations rebuild the reverse index of a table; the rebuilt index equals the one the source built
+    incrementally only if both enter equal keys the same way.  Every store into a map member keyed by a borrowing type is
+    classified - `m[k] = v` / insert_or_assign overwrite, emplace / insert / try_emplace keep what is there - and all stores of
+    one class must agree (a table read from a file that lists a value twice holds equal keys)."""
+    facts = run.facts
+    borrow = borrowing_records(facts)
+    n = 0
+    seen = set()
+    for q, r in sorted(closure(facts, ROOTS).items()):
+        if id(r) in seen:
+            continue
+        seen.add(id(r))
+        maps = [f for f in r.get("fields", []) if ("unordered_map<" in f.get("t", "") or "std::map<" in f.get("t", "")) and mentions(f["t"], borrow)]
+        for mf in maps:
+            sites = []
+            for fn in facts.functions.values():
+                if fn.get("cls") != q or fn.get("body") is None:
+                    continue
+                for x in ir.walk(fn["body"]):
+                    if x.get("k") == "Bin" and x.get("op") == "=":
+                        l_ = unwrap_all_casts(x.get("lhs"))
+                        if isinstance(l_, dict) and l_.get("k") == "OpCall" and l_.get("op") == "[]" and l_.get("args") and path(l_["args"][0]) == ("this", mf["n"]):
+                            sites.append((fn, x.get("l"), OVERWRITE, "operator[] ="))
+                    if x.get("k") == "MCall" and path(x.get("recv")) == ("this", mf["n"]):
+                        nm = callee_name(x)
+                        if nm in ("insert_or_assign",):
+                            sites.append((fn, x.get("l"), OVERWRITE, nm))
+                        elif nm in ("emplace", "insert", "try_emplace", "emplace_hint"):
+                            sites.append((fn, x.get("l"), KEEP_FIRST, nm))
+            if not sites:
+                continue
+            n += 1
+            pol = sorted(set(s_[2] for s_ in sites))
+            ok = len(pol) == 1
+            by = {}
+            for fn, line, p_, how in sites:
+                by.setdefault(p_, []).append("%s (%s, line %s)" % (fn["qn"].split("::")[-1], how, line))
+            first = sites[0]
+            odd = [s_ for s_ in sites if s_[2] != first[2]]
+            run.ob(rule, "%s.%s:index-stores-agree" % (short(q), mf["n"]), ok, (odd or sites)[0][0], (odd or sites)[0][1],
+                   "all %d stores into %s enter equal keys the same way (%s)" % (len(sites), mf["n"], pol[0]) if ok else
+                   "stores into %s disagree about equal keys: %s. An index rebuilt by a copy then resolves a value the table holds twice to a "
+                   "different position than the index of the table it was copied from" % (
+                       mf["n"], "; ".join("%s in %s" % (p_, ", ".join(sorted(set(v_)))) for p_, v_ in sorted(by.items()))))
+    run.floor(rule, 1, "reverse indexes keyed by a borrowing type")
